@@ -458,6 +458,8 @@ def gen_vector(rng, rn, kind):
     # ids that came out of mutated vectors are reused, but only while short: with the lenient Name.decode a
     # re-encoded garbage id can grow at every round trip
     known = [k for k in loc if k != sid and len(k) <= 24]
+    if len(known) > 8:
+        known = rng.sample(known, 8)
     pool = list(dict.fromkeys(known + [n for n in NODES if n != sid]))
     ids = [k for k in pool if rng.random() < 0.6] or [rng.choice(pool)]
     rng.shuffle(ids)
